@@ -58,6 +58,11 @@ fn near_misses() -> Vec<(&'static str, Mk)> {
         ("exists instead of bind (attractor)", |d| Some(F::hy(Hy::Exists, d, None, ag_ef(F::Var(d))))),
         ("forall instead of bind (steady)", |d| Some(F::hy(Hy::Forall, d, None, F::un(Un::AX, F::Var(d))))),
         ("EX instead of AX", |d| Some(bind(d, None, F::un(Un::EX, F::Var(d))))),
+        ("fewer operators: !{v}: AG {v}", |d| Some(bind(d, None, F::un(Un::AG, F::Var(d))))),
+        ("fewer operators: !{v}: EF {v}", |d| Some(bind(d, None, F::un(Un::EF, F::Var(d))))),
+        ("fewer operators: !{v}: {v}", |d| Some(bind(d, None, F::Var(d)))),
+        ("other operator: !{v}: AF {v}", |d| Some(bind(d, None, F::un(Un::AF, F::Var(d))))),
+        ("swapped operators: !{v}: EF AG {v}", |d| Some(bind(d, None, F::un(Un::EF, F::un(Un::AG, F::Var(d)))))),
         ("EG EF instead of AG EF", |d| Some(bind(d, None, F::un(Un::EG, F::un(Un::EF, F::Var(d)))))),
         ("AG EF of a conjunction with a proposition", |d| Some(bind(d, None, ag_ef(F::bin(Bi::And, F::Var(d), F::Prop(0)))))),
     ]
@@ -169,7 +174,7 @@ pub fn run(tier: &str) -> Result<Report, String> {
         }
     }
     rep.set("one_hole_contexts", json!(n_contexts));
-    rep.rule = format!("every one-hole context with <= {ctx_nodes} nodes (all unary operators, & | => EU AU, bind/exists/forall with and without domains, jump) x the two shortcut patterns, their pattern-defeating twins and 11 near-miss families, on the core networks x 2 label families: shortcut vs twin must be the same set (BDD equality); the pattern occurring twice (inside a domain-restricted context and in any other context, both orders, joined by & / |) vs the same with twins, and vs the oracle; and every formula must agree with the explicit-state oracle and stay inside the unit set; distinct_nontrivial = distinct non-trivial verdict tables");
+    rep.rule = format!("every one-hole context with <= {ctx_nodes} nodes (all unary operators, & | => EU AU, bind/exists/forall with and without domains, jump) x the two shortcut patterns, their pattern-defeating twins and 16 near-miss families (other variable, domain on the binder, extra / fewer / swapped / other operators, other quantifier), on the core networks x 2 label families: shortcut vs twin must be the same set (BDD equality); the pattern occurring twice (inside a domain-restricted context and in any other context, both orders, joined by & / |) vs the same with twins, and vs the oracle; and every formula must agree with the explicit-state oracle and stay inside the unit set; distinct_nontrivial = distinct non-trivial verdict tables");
     Ok(rep)
 }
 
